@@ -162,6 +162,19 @@ def closure_text(idx, cls, func, depth=2):
     return txt
 
 
+def check_zero_trip(idx, run):
+    hcls = idx.get_class("HoistTrans")
+    txt = " ".join(ast.unparse(hcls.node).split())
+    facts = ("IfBlock", "trip_count", "start_expr", "stop_expr", "zero_trip")
+    run.check(
+        "C05.R2", any(f in txt for f in facts), "HoistTrans.validate",
+        "a statement is only hoisted out of a loop that executes at least "
+        "once",
+        "HoistTrans never looks at the loop bounds: `a = 5.0` is moved in "
+        "front of `do i = 1, n`, so with n = 0 a is assigned although the "
+        "original loop body never ran", loc(hcls.module, hcls.node))
+
+
 def check_sufficiency(idx, run):
     """C05.R2: what the guards look at.  Fusing two loops is only safe when
     the element an iteration reads is not written by a *later* iteration of
@@ -255,5 +268,28 @@ def check(idx, run):
          "a later access to the variable is anything but a read (a second "
          "assignment, or a call that may update it)"),
     ])
+    # hoisting: every modifying access counts as a further write
+    hcls = idx.get_class("HoistTrans")
+    hfunc = hcls.methods["_validate_dependencies"]
+    sums = [c for c in ast.walk(hfunc) if isinstance(c, ast.Call) and
+            ast.unparse(c.func) == "sum" and "access_type" in ast.unparse(c)]
+    names = {}
+    for a in ast.walk(hfunc):
+        if isinstance(a, ast.Assign) and isinstance(a.targets[0], ast.Name):
+            names[a.targets[0].id] = ast.unparse(a.value)
+    okh = bool(sums)
+    for c in sums:
+        txt = ast.unparse(c)
+        for n, v in names.items():
+            txt = txt.replace(f" in {n} ", f" in {v} ")
+        if "all_write_accesses()" not in txt:
+            okh = False
+    run.check("C05.R1", okh, "HoistTrans._validate_dependencies",
+              "every modifying access in the loop counts as another write",
+              "the writes to the hoisted variable are counted by plain "
+              "WRITE accesses only: `a = t; call bump(a); b(i) = a` is "
+              "hoisted although the call modifies a in every iteration",
+              loc(hcls.module, hfunc))
     check_sufficiency(idx, run)
+    check_zero_trip(idx, run)
     run.assumptions = ["beyond R2, sufficiency of the guards is not decided"]
